@@ -58,6 +58,12 @@ def programs(tier):
     out.append({"name": "wfc[int0;fails-on-poll-2]", "meta": {"init": "int0", "decide": "c1-c0-c3-stop", "path": [1], "npolls": 2,
                                                              "fn": "inc", "fails_at": 2},
                 "seq": [op, {"k": "step", "fn": {"ret": "after"}}]})
+    # a poll whose returned state cannot be serialized: the failure is recorded and never polled again
+    op = {"k": "try", "catch": ["Boom", "CallableRuntimeError", "ExecutionError", "SerDesError"],
+          "body": {"k": "wfc", "init": 0, "check": {"fn": "inc", "unser_at": 2}, "decide": DECIDES["c1-c0-c3-stop"]}}
+    out.append({"name": "wfc[int0;unserializable-state-on-poll-2]",
+                "meta": {"init": "int0", "decide": "c1-c0-c3-stop", "path": [1], "npolls": 2, "fn": "inc", "fails_at": 2},
+                "seq": [op, {"k": "wait", "s": 1}, {"k": "wait", "s": 1}, {"k": "step", "fn": {"ret": "after"}}]})
     return out
 
 
@@ -95,6 +101,18 @@ def judge(d, _=None):
             V(out, "C13", "check-received-wrong-state",
               f"{d.program['name']}: poll {a + 1} (invocation {e['inv']}) received {e['state']}, expected {want}",
               poll="first" if a == 0 else "later", init=m["init"] if m["init"] in ("none", "empty-str") else "other")
+    # without crashes every poll number runs once: a poll that returned or raised has its outcome recorded (continue,
+    # stop or failure), so no later invocation runs the same poll again
+    if not any(i.get("crash") or i.get("faults") for i in d.invocations):
+        seen_polls = {}
+        for e in ents:
+            if e["attempt"] in seen_polls:
+                V(out, "C13", "poll-number-repeated",
+                  f"{d.program['name']}: poll {e['attempt'] + 1} ran in invocation {seen_polls[e['attempt']]} and again in invocation "
+                  f"{e['inv']} (its first outcome: {seen_polls.get(('x', e['attempt']))})", how=str(seen_polls.get(("x", e["attempt"]))))
+            else:
+                seen_polls[e["attempt"]] = e["inv"]
+                seen_polls[("x", e["attempt"])] = e.get("exit")
     # poll numbers seen by the strategy
     for c in w.wfc_calls:
         if c["path"] != path:
